@@ -31,6 +31,7 @@ from .. import attach
 from ..attach import fr, near
 from ..core import dec
 from ..gwl import GrammarError, parse
+from ..world import narrow_scalar
 
 ID = "C06"
 TITLE = "Large-volume handling: splitting is complete, bounded and minimal"
@@ -295,6 +296,7 @@ def gen_case(rng, tier, index):
                       fm * rng.uniform(1.0, 3.0)])
     if vol <= 0:
         vol = fm / 2
+    vol = narrow_scalar(rng, vol, 0.35)  # the same number as a narrow numpy integer (int8 ... uint16) now and then
     if r < 0.94:
         return {"kind": "rd", "cls": rng.choice(["base", "evo", "fluent"]), "m": m, "volume": vol, "multi_disp": req}
     return {"kind": "distribute", "device": rng.choice(["evo", "fluent"]), "m": m, "volume": vol, "multi_disp": req,
@@ -573,12 +575,15 @@ def _judge_r(ctx, case, records, m, vol, req, what):
 def _run_rd(ctx, case):
     import robotools
 
-    m, vol, req = dec(case["m"]), dec(case["volume"]), int(case["multi_disp"])
+    m, vol_arg, req = dec(case["m"]), dec(case["volume"]), int(case["multi_disp"])
+    vol = float(vol_arg)
+    if type(vol_arg).__module__ == "numpy":
+        ctx.count("volume_as_" + type(vol_arg).__name__)
     cls = {"base": robotools.BaseWorklist, "evo": robotools.EvoWorklist, "fluent": robotools.FluentWorklist}[case["cls"]]
     wl = cls(max_volume=m)
     exc = None
     try:
-        wl.reagent_distribution("SRC", 1, 8, "DST", 1, 96, volume=vol, multi_disp=req)
+        wl.reagent_distribution("SRC", 1, 8, "DST", 1, 96, volume=vol_arg, multi_disp=req)
     except Exception as e:
         exc = e
     records = list(wl)
@@ -605,7 +610,8 @@ def _run_rd(ctx, case):
 def _run_distribute(ctx, case):
     import robotools
 
-    m, vol, req = dec(case["m"]), dec(case["volume"]), int(case["multi_disp"])
+    m, vol_arg, req = dec(case["m"]), dec(case["volume"]), int(case["multi_disp"])
+    vol = float(vol_arg)
     dev = case["device"]
     cls = robotools.EvoWorklist if dev == "evo" else robotools.FluentWorklist
     wl = cls(max_volume=m)
@@ -615,7 +621,7 @@ def _run_distribute(ctx, case):
     wells = [f"{'ABCDEFGH'[i % 8]}{i // 8 + 1:02d}" for i in range(n_dst)]
     exc = None
     try:
-        wl.distribute(src, 0, dst, wells, volume=vol, multi_disp=req)
+        wl.distribute(src, 0, dst, wells, volume=vol_arg, multi_disp=req)
     except Exception as e:
         exc = e
     records = list(wl)
